@@ -60,7 +60,9 @@ structure Scenario where
   diskPre : Disk
   cancelledPre : Bool := false
   rc : Nat := 0
-  /-- What `amend_step` handed to `Executor.defer` while the command ran. -/
+  /-- Whether `Executor.defer` was called while the command ran (the amend handler does so exactly
+  when `carry_on` is false), and what it was handed. -/
+  deferCalled : Bool := false
   amendUnavailable : List String := []
   amendUnfresh : List String := []
   /-- The inputs (declared and amended) that are BUILT/CONFIRMED at completion, with their records. -/
@@ -88,10 +90,10 @@ structure Completion where
   success : Bool
   deriving Repr, DecidableEq
 
-/-- `run` after `_run_command` and the `defer` calls. -/
+/-- `run` after `_run_command` and the `defer` calls (`defer` clears `success` whatever it is handed). -/
 def runAfterCommand (sc : Scenario) : Run :=
-  if sc.amendUnavailable.isEmpty && sc.amendUnfresh.isEmpty then { success := sc.rc == 0 }
-  else { success := false, unavailable := sc.amendUnavailable, unfresh := sc.amendUnfresh }
+  if sc.deferCalled then { success := false, unavailable := sc.amendUnavailable, unfresh := sc.amendUnfresh }
+  else { success := sc.rc == 0 }
 
 /-- `Executor.execute_job` -/
 def executeJob (sc : Scenario) : Completion :=
